@@ -5,7 +5,7 @@ import os
 _COMMON = {"internal/zzverif/c18/c18.go": "c18/common/c18.go", "internal/zzverif/c18/fs.go": "c18/common/fs.go"}
 # which candidate repairs the tree under test carries (fixes/C18-F1.diff, fixes/C18-F2.diff): flipped here once the
 # coordinator has applied them; VERIF_C18_FIXED=F1,F2 overrides for trying a fix in a scratch worktree
-_FIXED = os.environ.get("VERIF_C18_FIXED", "F1,F2")   # 9cefff4 (C18-F1), 07a625c (C18-F2, C18-F4) are in /repo
+_FIXED = os.environ.get("VERIF_C18_FIXED", "F1,F2,F7,F8")   # in /repo: 9cefff4 (C18-F1), 07a625c (C18-F2, C18-F4), 46996f5 (C18-F7), f7bb6ba (C18-F8)
 _B = lambda f: "true" if f in _FIXED.split(",") else "false"
 
 P = {
@@ -15,14 +15,14 @@ P = {
     "theorems_module": "Properties.C18",
     "theorems": ["C18_converges", "C18_exactly_once", "C18_unchanged_no_reload", "C18_removed_unloaded",
                  "C18_invalid_keeps_previous", "C18_frame",
-                 "C18_fs_all_histories", "C18_fs_all_histories_pinned", "C18_fs_stored_hash",
-                 "C18_http_all_histories", "C18_http_stored_hash", "C18_http_latest_valid",
-                 "C18_fs_active_is_stored_hash", "C18_http_active_is_stored_hash",
+                 "C18_fs_all_histories", "C18_fs_all_histories_pinned",
+                 "C18_http_all_histories", "C18_http_latest_valid", "C18_http_reading_keep_refuted",
                  "C18_fs_converges_world", "C18_fs_applied_at_most_once", "C18_fs_converges_world_pinned",
                  "C18_fs_F2_pinned_refuted", "C18_fs_F4_pinned_refuted", "C18_fs_nonvacuous",
-                 "C18_blob_all_histories", "C18_blob_all_histories_pinned", "C18_blob_stored_hash",
+                 "C18_blob_all_histories", "C18_blob_all_histories_pinned",
+                 "C18_blob_unreadable_poll_changes_nothing", "C18_blob_single_absent_changes_nothing",
                  "C18_blob_F1_pinned_refuted", "C18_blob_F5_refuted", "C18_blob_F6_refuted",
-                 "C18_k8s_all_histories", "C18_k8s_converges", "C18_k8s_F7_refuted", "C18_k8s_F8_refuted"],
+                 "C18_k8s_all_histories", "C18_k8s_converges", "C18_k8s_F7_pinned_refuted", "C18_k8s_F8_pinned_refuted"],
     "streams": [{
         "name": "fs", "pkg": "./internal/rules/provider/filesystem", "test": "TestVerifC18Fs",
         "overlay": dict(_COMMON, **{"internal/rules/provider/filesystem/zz_verif_c18_test.go": "c18/fs_test.go"}),
@@ -45,6 +45,11 @@ P = {
         "eval_module": "Run.Eval_C18", "check_term": "check_http",
         "n_quick": 400, "n_thorough": 12000, "findings": {},
     }, {
+        "name": "httpsched", "pkg": "./internal/rules/provider/httpendpoint", "test": "TestVerifC18HTTPSched",
+        "overlay": dict(_COMMON, **{"internal/rules/provider/httpendpoint/zz_verif_c18_test.go": "c18/http_test.go"}),
+        "eval_module": "Run.Eval_C18", "check_term": "check_hsched",
+        "n_quick": 3, "n_thorough": 3, "findings": {}, "escalate": False,
+    }, {
         "name": "blob", "pkg": "./internal/rules/provider/cloudblob", "test": "TestVerifC18Blob",
         "overlay": dict(_COMMON, **{"internal/rules/provider/cloudblob/zz_verif_c18_test.go": "c18/blob_test.go"}),
         "eval_module": "Run.Eval_C18", "check_term": "check_blob " + _B("F1"),
@@ -53,63 +58,76 @@ P = {
         "name": "k8s", "pkg": "./internal/rules/provider/kubernetes", "test": "TestVerifC18K8s",
         "overlay": dict(_COMMON, **{"internal/rules/provider/kubernetes/zz_verif_c18_test.go": "c18/k8s_test.go"}),
         "eval_module": "Run.Eval_C18", "check_term": "check_k8s " + _B("F7") + " " + _B("F8"),
-        "n_quick": 300, "n_thorough": 6000, "findings": {7: "C18-F7", 8: "C18-F8"},
+        "n_quick": 300, "n_thorough": 6000, "findings": {},
     }],
-    "rule": "five streams of generated histories (1-30 events over 1-3 sources each), every one through the REAL event entry points, "
-            "corpus (witnesses of C18-F1/F2/F4/F5/F6 + corpus/C18/*.json) first: "
-            "fs = file changes (valid/absent/empty/invalid with 5 empty and 11 invalid byte variants) x fsnotify events of every "
-            "kind incl. combined op bits, orderly and out-of-order/repeated/stale notifications, initial loads, via "
+    "rule": "seven streams, every one through REAL code of /repo, corpus (witnesses of C18-F1/F2/F4/F5/F6/F7/F8 + corpus/C18/*.json) "
+            "first, then generated histories of 1-30 events over 1-3 sources: "
+            "fs = file changes (valid/absent/empty/invalid, 5 empty and 11 invalid byte variants) x fsnotify events of every kind "
+            "incl. combined op bits, orderly and out-of-order/repeated/stale notifications, initial loads, via "
             "ruleSetsChanged/loadInitialRuleSet with a recording processor; "
-            "fsreal = the same histories (disjoint content ranges per file) through the real rule-set processor, real rule "
-            "factory (stub catalogue) and real repository, observing what the repository holds per source after every event; "
-            "http = polls via watchChanges answered by an httptest server: 200 x yaml|json|unsupported|no content type x "
+            "fsreal = the same (disjoint content ranges per file, twin contents with equal rule ids and other bodies) through the "
+            "real rule-set processor, rule factory (stub catalogue) and repository, observing rule ids and paths per source; "
+            "fswatch = real Start + real fsnotify watcher + watchFiles: atomic renames/removes/symlinks/mkdir with a sentinel-file "
+            "barrier, accepted calls per operation, Start failure, stalled watcher; "
+            "http = polls via watchChanges against an httptest server: 200 x yaml|json|six unsupported media types|none x "
             "valid/empty/invalid body, other status codes, connection error, deadline, cancellation; "
-            "blob = polls via watchChanges over an in-memory driver.Bucket: listings (paged) and single-blob endpoints, "
-            "failures injected at open/list/attrs/read x gcerrors codes; "
-            "k8s = watch events (added/modified/deleted, class and generation changes, initial list, ~25% cases with deliveries "
-            "an API server would not make) through provider.Start with the real client-go informer. "
-            "12-20% of the contents are rejected by the processor (unsupported version / unknown mechanism), 8% of the fs/http "
-            "cases have a source whose deletion the processor refuses. Non-trivial = the history produced an accepted update or "
-            "deletion, or kept a loaded version while seeing an invalid/rejected one; distinct by hash of the generated input",
+            "httpsched = real newProvider+Start (gocron, 20 ms interval) with barriers on answered polls, overlap detection; "
+            "blob = polls via watchChanges over an in-memory driver.Bucket: paged listings and single-blob endpoints, failures "
+            "injected at open/list/attrs/read x gcerrors codes; "
+            "k8s = provider.Start with the real client-go reflector/informer over a fake API: watch events, class/generation "
+            "changes, initial list, relists after 410 Gone (deleted / re-created / changed meanwhile), ~25% cases with "
+            "deliveries an API server would not make; handler panics observed. "
+            "12-20% of the contents are rejected by the processor (unsupported version / unknown mechanism); 6-30% of the "
+            "fs/http/blob(single key)/k8s cases have a source whose deletion the processor refuses (correspondence only). "
+            "Non-trivial = the history produced an accepted update or deletion, or kept a loaded version while seeing an "
+            "invalid/rejected one; distinct by hash of the generated input",
     "anchors": ["internal/rules/provider/filesystem/provider.go", "internal/rules/provider/httpendpoint/provider.go",
                 "internal/rules/provider/httpendpoint/ruleset_endpoint.go", "internal/rules/provider/cloudblob/provider.go",
                 "internal/rules/provider/cloudblob/ruleset_endpoint.go", "internal/rules/provider/kubernetes/provider.go",
                 "internal/rules/config/parser.go", "internal/rules/ruleset_processor_impl.go"],
-    "trusted": ["content hashes (SHA-256/MD5) are modelled by the identity of the content (only equality of hashes is used)",
+    "trusted": ["content hashes (SHA-256/MD5) are modelled by the identity of the content (only equality of hashes is used); blobs "
+                "whose driver reports no MD5 are outside the model (stub replay: they are never updated — candidate C18-F9)",
                 "the rule-set parser (YAML/JSON decoding + validation) is not modelled: the class of a content (absent/empty/invalid/"
-                "valid) is data of the case, realised by real bytes the real parser classifies in the run",
+                "valid) is data of the case, realised by real bytes the real parser classifies in the run; the drivers map "
+                "(content type, bytes) and (injected failure, listing) to the model's classes",
                 "the rule-set processor is an oracle per content (accept/reject) and per source (deletion accepted/refused); the "
                 "stream fsreal checks that the real processor+factory+repository behave like that oracle and like the ideal "
                 "repository keyed by source id (for rule sets that do not compete for paths)",
-                "event delivery is not modelled: fsnotify, gocron scheduling, net/http transport; the drivers call "
-                "ruleSetsChanged, loadInitialRuleSet, watchChanges synchronously",
+                "event delivery is modelled only as 'one notification per atomic change, in order' (fswatch) and 'polls one after "
+                "another' (httpsched); lost events, non-atomic writes, the window between initial load and watcher.Add, the "
+                "cloud-blob scheduler are not covered",
                 "cloud store: an in-memory gocloud driver.Bucket stub reporting the gcerrors codes real drivers report (C18-F1/F5/F6 "
                 "were additionally replayed against gofakes3 + s3blob)",
-                "Kubernetes: the client-go informer dispatch and cache.FilteringResourceEventHandler are transcribed into the model "
-                "as observed (the run uses the real ones); status updates, finalize, relist are not modelled"],
+                "Kubernetes: the client-go reflector/DeltaFIFO/informer dispatch and cache.FilteringResourceEventHandler are "
+                "transcribed into the model as observed (the run uses the real ones); status updates, finalize are not modelled"],
     "level_text": "Proof (kernel-checked, no axioms; coqchk in the thorough tier): for the models of all four rule providers, for ALL "
-                  "finite histories of source changes, notifications/polls/watch events (any kind, repeated, stale, out of order) and "
-                  "fetch outcomes, the sequence of accepted OnCreated/OnUpdated/OnDeleted calls is exactly the one that tracks the "
-                  "latest valid content seen of each source (trace_ok; for Kubernetes modulo idempotent calls), by induction with the "
-                  "invariant stored hash = latest valid content seen; from trace_ok follow convergence, exactly-once application, no "
-                  "reload on unchanged content, unloading of removed/emptied sources and keeping the previous version on "
-                  "invalid/rejected content. File system additionally at world level: after the last change of a file any processed "
-                  "notification makes the loaded version the file's latest valid content, and the accepted calls per file never "
-                  "exceed the file's changes. The models are tied to the provider sources by running the real handlers on ~1900 "
-                  "(quick) / ~56000 (thorough) generated histories per run and comparing calls, results, returned errors, stored "
-                  "hashes and (fsreal) the real repository's content per event.",
-    "level_note": "File system and cloud blob are the providers as they are after the fix: commits 07a625c (C18-F2, C18-F4) and 9cefff4 "
-                  "(C18-F1); the pinned behaviour is kept as *_pinned theorems and *_pinned_refuted witnesses. Cloud blob is proved "
-                  "outside the guards of the open findings C18-F5 (one unloadable blob freezes the bucket) and C18-F6 (single-blob "
-                  "endpoint never notices the deletion), for histories conforming to the endpoint configuration. Kubernetes is proved "
-                  "for well-formed watch histories (k8s_wf) and read modulo idempotent processor calls. Trusted: Coq kernel/vm_compute; "
-                  "the correspondence harness; hashes as content identities; parser and processor as oracles (the processor oracle is "
-                  "itself checked against the real processor+repository by the fsreal stream); event delivery, cloud store driver and "
-                  "client-go informer as observed.",
-    "assumptions": ["in-package drivers read Provider.states / BucketState and call unexported handlers: a rename of those breaks the driver, not the property",
+                  "finite histories of source changes, notifications/polls/watch events and relists (any kind, repeated, stale, out "
+                  "of order) and fetch outcomes, the sequence of accepted OnCreated/OnUpdated/OnDeleted calls is exactly the one "
+                  "that tracks the latest valid content seen of each source (trace_ok; for Kubernetes modulo idempotent calls, "
+                  "and no handler panics), by induction with the invariant stored hash = latest valid content seen; from "
+                  "trace_ok follow convergence, exactly-once application, no reload on unchanged content, unloading of "
+                  "removed/emptied sources and keeping the previous version on invalid/rejected content. File system additionally at "
+                  "world level: after the last change of a file any processed notification makes the loaded version the file's "
+                  "latest valid content, and the accepted calls per file never exceed the file's changes. The models are tied to "
+                  "the provider sources by running the real handlers, the real fsnotify watcher loop, the real gocron-scheduled "
+                  "polls and the real client-go informer on ~2000 (quick) / ~50000 (thorough) generated histories per run.",
+    "level_note": "PARTIAL in these respects. (1) An unreachable HTTP endpoint / bucket is read as a source that no longer exists "
+                  "(Spec parameter gone = true, what heimdall implements); under the other reading the provider is refuted "
+                  "(C18_http_reading_keep_refuted); the run-time predicate accepts either. (2) Cloud blob is proved outside the "
+                  "per-poll guards of the open findings C18-F5 (an unloadable blob while something of the bucket has to change) "
+                  "and C18-F6 (the named blob is gone while its rule set is loaded), for histories conforming to the endpoint "
+                  "configuration. (3) Kubernetes is proved for well-formed histories (k8s_wf), read modulo idempotent processor "
+                  "calls, and outside the guard of a UID change under a stored name (the repaired path of C18-F8 is covered by "
+                  "correspondence and a witness only). (4) All provider theorems assume a processor that never refuses a deletion. "
+                  "File system, cloud blob and Kubernetes are the providers after the fix: commits 07a625c (C18-F2, C18-F4), "
+                  "9cefff4 (C18-F1), 46996f5 (C18-F7), f7bb6ba (C18-F8); pinned behaviour kept as *_pinned theorems/witnesses. "
+                  "Trusted: Coq kernel/vm_compute; the correspondence harness incl. its class mappings; hashes as content "
+                  "identities; parser and processor as oracles; cloud store stub; client-go informer as observed.",
+    "assumptions": ["in-package drivers read Provider.states / BucketState and call unexported handlers: a rename or a change of "
+                    "representation of those breaks the driver (reported as correspondence-broken), not the property",
                     "the processor's answer depends only on the content (create/update) or the source (delete), not on the call history "
                     "(rule sets of different sources competing for the same path are outside the model: C06)",
-                    "HTTP: an endpoint that cannot be reached counts as a source that no longer exists (its rule set is unloaded until it answers again)"],
+                    "fairness is a hypothesis: every change is followed by a notification / poll that is processed"],
 }
 
 # VERIF_C18_STREAMS=fs,blob restricts a run to some streams (used for mutation testing only)
